@@ -24,6 +24,32 @@ structure YMD where
 /-- Python `1 << s` / `x >> s` with a run-time shift count: `ValueError` for a negative count. -/
 def pyShiftCount (s : Int) : R Nat := if s < 0 then .error .valueError else .ok s.toNat
 
+/-- Python `a & b` on unbounded two's-complement integers (`-[n+1]` is `~n`). -/
+def pyAnd : Int → Int → Int
+  | .ofNat m, .ofNat n => Int.ofNat (m &&& n)
+  | .ofNat m, .negSucc n => Int.ofNat (m - (m &&& n))
+  | .negSucc m, .ofNat n => Int.ofNat (n - (n &&& m))
+  | .negSucc m, .negSucc n => .negSucc (m ||| n)
+
+/-- Python `a | b` -/
+def pyOr : Int → Int → Int
+  | .ofNat m, .ofNat n => Int.ofNat (m ||| n)
+  | .ofNat m, .negSucc n => .negSucc (n - (n &&& m))
+  | .negSucc m, .ofNat n => .negSucc (m - (m &&& n))
+  | .negSucc m, .negSucc n => .negSucc (m &&& n)
+
+/-- Python `a ^ b` -/
+def pyXor : Int → Int → Int
+  | .ofNat m, .ofNat n => Int.ofNat (m ^^^ n)
+  | .ofNat m, .negSucc n => .negSucc (m ^^^ n)
+  | .negSucc m, .ofNat n => .negSucc (m ^^^ n)
+  | .negSucc m, .negSucc n => Int.ofNat (m ^^^ n)
+
+/-- Python `a << s` with a run-time shift count (`ValueError: negative shift count`) -/
+def pyShl (a s : Int) : R Int := if s < 0 then .error .valueError else .ok (a * 2 ^ s.toNat)
+/-- Python `a >> s` with a run-time shift count -/
+def pyShr (a s : Int) : R Int := if s < 0 then .error .valueError else .ok (a >>> s.toNat)
+
 /-- Python `a // b` with a run-time divisor -/
 def pyFloorDiv (a b : Int) : R Int := if b = 0 then .error .zeroDivision else .ok (Int.fdiv a b)
 /-- Python `a % b` with a run-time divisor -/
